@@ -671,7 +671,20 @@ def sheetLoop (fuel : Nat) (h : Header) (c : Ctx) (seen : Seen) (cursor : Nat) (
 
 def defaultFuel (h : Header) : Nat := 4 * h.names.length + 64
 
-/-- the fields of the worksheet message for header rows (`names`, `types`) -/
-def parseSheet (c : Ctx) (h : Header) : PRes (List PField) := sheetLoop (defaultFuel h) h c [] 0 []
+/-- the duplicate-name pre-check of `convertTable` over every non-blank name cell -/
+def precheck : List Str → Nat → Seen → Bool
+  | [], _, _ => true
+  | n :: ns, i, seen =>
+    if n.isEmpty then precheck ns (i + 1) seen
+    else
+      match checkConflict seen n i with
+      | none => false
+      | some s => precheck ns (i + 1) s
+
+/-- the fields of the worksheet message for header rows (`names`, `types`). (After a successful pre-check no
+two non-blank names are equal, so the per-field conflict checks of the loop never fire: the loop starts from
+an empty table, which gives the same results.) -/
+def parseSheet (c : Ctx) (h : Header) : PRes (List PField) :=
+  if precheck h.names 0 [] then sheetLoop (defaultFuel h) h c [] 0 [] else .error (.err "E0003")
 
 end TableauVerif.Model.Protogen
